@@ -59,6 +59,7 @@ func EvalCheckCallMap(m *modelgen.Model, got map[string]int) []Mismatch {
 	}
 	callers := map[string]map[string]bool{}
 	places := map[string]map[string]bool{} // distinct (caller, line) places per callee
+	ctorSites := map[string]int{}          // call sites written inside constructor functions
 	for _, me := range m.Methods() {
 		for _, c := range me.Calls {
 			if c.Class != "" {
@@ -69,6 +70,9 @@ func EvalCheckCallMap(m *modelgen.Model, got map[string]int) []Mismatch {
 				}
 				callers[k][me.Full()] = true
 				places[k][fmt.Sprintf("%s:%d", me.Full(), c.Line)] = true
+				if me.IsCtor {
+					ctorSites[k]++
+				}
 			}
 		}
 	}
@@ -79,14 +83,19 @@ func EvalCheckCallMap(m *modelgen.Model, got map[string]int) []Mismatch {
 			sig := "count-called-method-missing"
 			if evalDefaultPkg(k) {
 				sig = "count-called-method-missing-default-package"
+			} else if ctorSites[k] == want[k] {
+				sig = "count-called-method-missing-called-only-inside-constructors"
 			}
-			out = append(out, Mismatch{sig, fmt.Sprintf("%q has %d call site(s) in the model but no entry in the count map", k, want[k])})
+			out = append(out, Mismatch{sig, fmt.Sprintf("%q has %d call site(s) in the model (%d of them inside constructors) but no entry in the count map", k, want[k], ctorSites[k])})
 		case g < want[k]:
 			sig := "count-too-low"
 			if g == len(callers[k]) {
 				sig = "count-too-low-equals-number-of-callers"
 			} else if g == len(places[k]) {
 				sig = "count-too-low-same-line-sites-merged"
+			}
+			if ctorSites[k] > 0 && g == want[k]-ctorSites[k] {
+				sig = "count-too-low-constructor-call-sites-missing"
 			}
 			out = append(out, Mismatch{sig, fmt.Sprintf("%q: count %d, the model records %d call sites from %d caller(s)", k, g, want[k], len(callers[k]))})
 		case g > want[k]:
@@ -115,6 +124,7 @@ func EvalCheckCallMap(m *modelgen.Model, got map[string]int) []Mismatch {
 type EvalCallRecord struct {
 	Caller, Callee string // full names
 	Line, Col      int
+	InCtor         bool // the calling function is a constructor
 }
 
 // EvalCountsFromRecords: declared full name -> number of recorded call entries naming it.
@@ -146,12 +156,16 @@ func EvalCheckRecordedCounts(declared []string, calls []EvalCallRecord, got map[
 		nDecl[EvalNormKey(d)]++
 	}
 	perLine := map[string]map[string]bool{}
+	ctorSites := map[string]int{}
 	for _, c := range calls {
 		k := EvalNormKey(c.Callee)
 		if perLine[k] == nil {
 			perLine[k] = map[string]bool{}
 		}
 		perLine[k][fmt.Sprintf("%s:%d", c.Caller, c.Line)] = true
+		if c.InCtor && isDecl[k] {
+			ctorSites[k]++
+		}
 	}
 	for _, k := range evalSortedIntKeys(want) {
 		g, ok := got[k]
@@ -160,12 +174,17 @@ func EvalCheckRecordedCounts(declared []string, calls []EvalCallRecord, got map[
 			sig := "count-called-method-missing"
 			if evalDefaultPkg(k) {
 				sig = "count-called-method-missing-default-package"
+			} else if ctorSites[k] == want[k] {
+				sig = "count-called-method-missing-called-only-inside-constructors"
 			}
-			out = append(out, Mismatch{sig, fmt.Sprintf("%q has %d recorded call site(s) but no entry in the count map", k, want[k])})
+			out = append(out, Mismatch{sig, fmt.Sprintf("%q has %d recorded call site(s) (%d of them inside constructors) but no entry in the count map", k, want[k], ctorSites[k])})
 		case g < want[k]:
 			sig := "count-too-low"
 			if g == len(perLine[k]) {
 				sig = "count-too-low-same-line-sites-merged"
+			}
+			if ctorSites[k] > 0 && g == want[k]-ctorSites[k] {
+				sig = "count-too-low-constructor-call-sites-missing"
 			}
 			out = append(out, Mismatch{sig, fmt.Sprintf("%q: count %d, the model records %d call sites on %d distinct (caller, line) places", k, g, want[k], len(perLine[k]))})
 		case g > want[k]:
@@ -228,6 +247,9 @@ func EvalSameOrder(a, b []EvalPair) []Mismatch {
 type EvalSummary struct {
 	ClassCount, MethodCount, StaticMethodCount, UtilsCount int
 	Nullable                                               []string
+	// CtorCount (expectation only): constructors of the project. Whether a constructor is a "method" is not
+	// settled, so MethodCount may lie anywhere in [MethodCount, MethodCount+CtorCount].
+	CtorCount int `json:",omitempty"`
 }
 
 func EvalMethodPath(c *evalgen.Class, m *evalgen.Method) string {
@@ -241,6 +263,9 @@ func EvalExpected(p *evalgen.Project) EvalSummary {
 		s.ClassCount++
 		if c.Kind == evalgen.KindUtil {
 			s.UtilsCount++
+		}
+		if c.Ctor != nil {
+			s.CtorCount++
 		}
 		for _, m := range c.Methods {
 			s.MethodCount++
@@ -280,7 +305,11 @@ func evalCheckCounts(p *evalgen.Project, got EvalSummary) []Mismatch {
 		}
 	}
 	num("class-count", got.ClassCount, want.ClassCount, "")
-	num("method-count", got.MethodCount, want.MethodCount, "")
+	if got.MethodCount < want.MethodCount {
+		num("method-count", got.MethodCount, want.MethodCount, "")
+	} else if got.MethodCount > want.MethodCount+want.CtorCount {
+		num("method-count", got.MethodCount, want.MethodCount+want.CtorCount, fmt.Sprintf(" (%d methods + %d constructors)", want.MethodCount, want.CtorCount))
+	}
 	var statics, utils []string
 	for _, c := range p.Classes {
 		if c.Kind == evalgen.KindUtil {
@@ -309,6 +338,14 @@ func EvalCheckSummary(p *evalgen.Project, got EvalSummary) []Mismatch {
 			}
 		}
 	}
+	ctorPath := map[string]*evalgen.Method{}
+	for _, c := range p.Classes {
+		if c.Ctor != nil {
+			if _, isMethod := byPath[EvalNormKey(EvalMethodPath(c, c.Ctor))]; !isMethod {
+				ctorPath[EvalNormKey(EvalMethodPath(c, c.Ctor))] = c.Ctor
+			}
+		}
+	}
 	seen := map[string]int{}
 	for _, it := range got.Nullable {
 		seen[EvalNormKey(it)]++
@@ -317,6 +354,14 @@ func EvalCheckSummary(p *evalgen.Project, got EvalSummary) []Mismatch {
 		m, ok := byPath[it]
 		switch {
 		case !ok:
+			if ct, isCtor := ctorPath[it]; isCtor {
+				sig := "nullable-extra-constructor"
+				if ct.ParamAnno != "" {
+					sig = "nullable-extra-constructor-with-annotated-parameter"
+				}
+				out = append(out, Mismatch{sig, fmt.Sprintf("nullable list names the constructor %q, which returns nothing and is not annotated: %s", it, EvalDescribeMethod(ct))})
+				continue
+			}
 			out = append(out, Mismatch{"nullable-unknown-method", fmt.Sprintf("nullable list names %q, which is no method of the project", it)})
 			continue
 		case seen[it] > 1:
@@ -340,6 +385,9 @@ func EvalCheckSummary(p *evalgen.Project, got EvalSummary) []Mismatch {
 				hasNonnull = hasNonnull || h == "@Nonnull"
 			}
 			switch {
+			case m.ParamAnno != "" && !m.NullCompare:
+				sig = "nullable-extra-only-a-parameter-is-annotated"
+				why = "only its parameter carries @" + m.ParamAnno + "; it never returns the null literal and is not annotated itself"
 			case m.NullCompare:
 				sig = "nullable-extra-null-comparison"
 				why = "returns a boolean comparison with null, never the null literal"
@@ -379,6 +427,9 @@ func EvalDescribeMethod(m *evalgen.Method) string {
 		if m.NullNested {
 			s += " (inside a nested block)"
 		}
+	}
+	if m.ParamAnno != "" {
+		s += " (first parameter annotated @" + m.ParamAnno + ")"
 	}
 	if m.NullAnno != "" {
 		s += " carries @" + m.NullAnno + " (" + m.AnnoPos + ")"
